@@ -1,3 +1,4 @@
+import Secp.Proofs.DriversFront
 import Secp.Proofs.DriversMisc
 import Secp.Proofs.PrivKey
 /-
@@ -76,5 +77,10 @@ theorem generatePrivateKey_regenerated (rd : Reader) :
 theorem privKeyFromBytes_regenerated (b : Bytes) :
     Secp.Gen.Drivers.privKeyFromBytes b = Secp.Model.privKeyFromBytes b :=
   Secp.Proofs.DriversMisc.privKeyFromBytes_regenerated b
+
+/-- `GeneratePrivateKeyFromRand` is `generatePrivateKey` -/
+theorem generatePrivateKeyFromRand_front (r : Reader) :
+    Secp.Gen.Drivers.generatePrivateKeyFromRand r = Secp.Gen.Drivers.generatePrivateKey r :=
+  Secp.Proofs.DriversFront.generatePrivateKeyFromRand_front r
 
 end Secp.Props.C19
